@@ -56,9 +56,11 @@ CFG = dict(
         "parallel to its plane) and Triangle (minDistance = 0), for unit-direction rays: Point = ray.At(Distance), inside BoundingBox(), Distance "
         "within the range, first hit reported exactly when within the range — about Model/RenderPrims.lean, a hand transcription of the Hit / "
         "BoundingBox arithmetic (the methods store through *HitRecord with interface- and map-typed fields: outside the translator's subset; the "
-        "rays ARE regenerated: Gen/Render.lean), tied by the bit-exact c16.prim.* lines. Remaining: (a) empty-interior ranges min = max: "
-        "bvh_differs_on_point_range proves HitList hits and a BVH node misses (slab test rejects every [m,m]); reproduced on the real code "
-        "(unit sphere, ray (0,0,-5)->+z, range [4,4]: HitList true at 4, BVHNode false); (b) triangles with minDistance != 0 (mesh.go:53 compares "
+        "rays ARE regenerated: Gen/Render.lean), tied by the bit-exact c16.prim.* lines. Remaining: (a) KNOWN FINDING C16-bvh-point-range (known_findings.json; a genuine violation of the "
+        "property on a degenerate query, recorded, not repaired): ranges of a single point min = max — bvh_differs_on_point_range proves HitList "
+        "hits and a BVH node misses (the slab test rejects every [m,m]: slab_rejects_point_range); replayed on the real code on EVERY run by the "
+        "witness oracle c16.holds.bvh_point_range_witness (unit sphere, ray (0,0,-5)->+z, range [4,4]: HitList true at 4, BVHNode false), which "
+        "prints KNOWN-FINDING; the random generators route no min = max range to an agreement oracle; (b) triangles with minDistance != 0 (mesh.go:53 compares "
         "the distance from ray.At(min) with max); (c) animated spheres outside the hypothesis (non-linear animation, ray time outside "
         "[start,end]: the source's own TODO in Sphere.BoundingBox), negative radius, rays whose direction is not of unit length (NewTemporalRay "
         "normalises; a zero vector gives NaN), rectangle rays with direction.z = 0 (Go: +-Inf -> miss; origin in the plane: NaN distance "
@@ -116,7 +118,7 @@ CFG = dict(
         note="Trusted: Lean kernel + propext/Classical.choice/Quot.sound; translator; harness; hand transcription of octree.go / bvh.go / hit.go / the slab "
              "helper (tied bit-for-bit). Not proved: floating-point rounding (that the float tree satisfies Covers is observed; closest-element identity "
              "is compared by distance with relative tolerance 1e-9: ties aside); the primitive contract outside its proved domain (triangles with "
-             "minDistance != 0, non-linear sphere animation, point ranges min = max — proved to differ, see residue); a multi-object BVH has no model-vs-impl line (random shape). Corner: a ray with a zero "
+             "minDistance != 0, non-linear sphere animation, point ranges min = max — KNOWN FINDING C16-bvh-point-range: proved to differ, witnessed on the real code on every run by c16.holds.bvh_point_range_witness, recorded not repaired); a multi-object BVH has no model-vs-impl line (random shape). Corner: a ray with a zero "
              "direction component whose origin lies EXACTLY on a box's ε-widened face is sign-of-zero dependent in Go (NaN): both outcomes are "
              "covered by theorems (-0 reading = the model; +0 reading = intersectsRayInRangePos), the sign bit itself is not modelled over ℝ. Excluded by hypothesis: zero-length segments, zero-area triangles, boxes with negative extents, negative depth.",
         technique="Lean 4 proof (structural induction over covering trees, best-first search invariant, build invariant, barycentric argument) over "
